@@ -4,6 +4,7 @@ mod conc;
 mod conc_pending;
 mod core;
 mod corpus;
+mod backend;
 mod blocks;
 mod coverage;
 mod front;
@@ -69,6 +70,8 @@ fn main() {
         | "classifier-mutants" => host::classifier_mutants(&args[2], args[3].parse().unwrap()),
         | "role-table" => host::role_table(&args[2]),
         | "replay-scope" => scope::replay_scope(&args[2], &args[3]),
+        | "export-ir" => backend::export_ir(&args[2], &args[3], &args[4], args[5].parse().unwrap()),
+        | "corpus-lower" => backend::corpus_lower(&args[2], &args[3]),
         | "corpus-run" => {
             // zyconf corpus-run OUT MUTANTS_PER_FILE MAX_STEPS
             corpus::corpus_run(&args[2], args[3].parse().unwrap(), args[4].parse().unwrap());
